@@ -70,6 +70,7 @@ type Machine struct {
 	noMerge bool
 	mergeLoops bool
 	deadline time.Time
+	skipTables bool
 	inPerAlt bool
 	inHook   bool
 	freshMaps map[*MapV]int
@@ -236,7 +237,10 @@ func (m *Machine) call(fnv value, args []value, site ssa.Instruction) value {
 
 func (m *Machine) callFn(fn *ssa.Function, args []value, env []value, site ssa.Instruction) value {
 	name := fn.String()
-	if name == "github.com/6tail/lunar-go/calendar.NewLunarYear" {
+	if m.skipTables && name == "(*github.com/6tail/lunar-go/calendar.LunarYear).compute" {
+		return nil
+	}
+	if name == "github.com/6tail/lunar-go/calendar.NewLunarYear" && !m.skipTables {
 		// the year table is astronomy: always computed for a concrete year
 		if t, ok := args[0].(*Term); ok {
 			args[0] = m.concretize(t, fn.Pos(), "lunar year passed to NewLunarYear")
